@@ -183,6 +183,14 @@ def uninitialised_stream(ctx):
         fn = toolkit.get_synced_metric_collection if coll else toolkit.get_synced_metric
         res = fn(arg)
         s.case(repr(su.jsonable(scn["members"][0])), True)
+        # initialised, but a world / group of one: the very same object comes back as well
+        from .. import simdist
+        W1 = ctx.rng.choice([1, 3])
+        me = ctx.rng.randrange(W1)
+        with simdist.Sim(W1) as sim:
+            out1, _ = sim.run(lambda r: fn(arg, None if W1 == 1 else simdist.SimGroup([r])) is arg, ranks=[me])
+        if out1[me] != ("ok", True):
+            res = None
         if res is not arg:
             ok = False
             ctx.violation("failing-input", "toolkit.get_synced_metric", {"check": "uninitialised-identity",
